@@ -252,6 +252,29 @@ pub fn run(tier: Tier) -> i32 {
         x.extend(b" 1u8 }");
         cases.push(Case { kind: "bytes-in-program", origin: String::new(), text: x });
     }
+    // every range pattern over a boundary-number alphabet, in a match on each scrutinee type
+    {
+        let nums: &[&str] = &["0", "1", "5", "127", "128", "255", "256", "-1", "-5", "-128", "-129", "9223372036854775807", "-9223372036854775808", "18446744073709551615"];
+        let sufs: &[&str] = if tier == Tier::Quick { &["", "u8", "i8"] } else { &["", "u8", "i8", "u64", "i64", "usize"] };
+        let tys: &[&str] = if tier == Tier::Quick { &["u8", "i8", "i64"] } else { &["u8", "i8", "u64", "i64", "usize", "u16"] };
+        for ty in tys {
+            for a in nums {
+                for b in nums {
+                    for sa in sufs {
+                        for sb in sufs {
+                            if tier == Tier::Quick && sa != sb {
+                                continue;
+                            }
+                            for op in ["..", "..="] {
+                                let text = format!("pub fn main(x: {ty}) -> u8 {{\n  match x {{\n    {a}{sa}{op}{b}{sb} => 1u8,\n    _ => 0u8,\n  }}\n}}\n");
+                                cases.push(Case { kind: "range-pattern", origin: String::new(), text: text.into_bytes() });
+                            }
+                        }
+                    }
+                }
+            }
+        }
+    }
     let n_frontend = cases.len();
     for c in &cases {
         *kinds_count.lock().unwrap().entry(c.kind.to_string()).or_insert(0) += 1;
@@ -354,7 +377,7 @@ pub fn run(tier: Tier) -> i32 {
         coverage: json!({
             "evaluations": evaluated.load(Ordering::Relaxed),
             "distinct_nontrivial": distinct_errors.lock().unwrap().len() as u64 + outcomes.len() as u64,
-            "rule": "corpus = repository example programs, error examples, documentation code blocks, generated programs of families S/D/P and a hand-written program using every syntactic form; for each: every token-boundary prefix, every character prefix (every 7th for long files), every single-token deletion, duplication, adjacent swap and substitution by each token of an alphabet of keywords / punctuation incl. comment delimiters / identifiers / boundary numbers (big numbers are not placed in array-size or range positions); all token strings of length <= L over a 37-token alphabet; all byte strings of length <= 2 over printable ASCII + NUL, 0x80, 0xff, multi-byte characters, CR/LF/TAB, alone and inside a program; the same perturbations of literal strings given to parse_arg; each case runs check + compile of every pub fn + prettify in an isolated worker with a deadline and an address-space limit; distinct_nontrivial = number of distinct (outcome class, perturbation kind) pairs observed",
+            "rule": "corpus = repository example programs, error examples, documentation code blocks, generated programs of families S/D/P and a hand-written program using every syntactic form; for each: every token-boundary prefix, every character prefix (every 7th for long files), every single-token deletion, duplication, adjacent swap and substitution by each token of an alphabet of keywords / punctuation incl. comment delimiters / identifiers / boundary numbers (big numbers are not placed in array-size or range positions); all token strings of length <= L over a 37-token alphabet; every range pattern a{suffix}..b{suffix} / ..= over a 14-number boundary alphabet (0, 1, type minima/maxima and their neighbours) x suffix pairs x scrutinee types; all byte strings of length <= 2 over printable ASCII + NUL, 0x80, 0xff, multi-byte characters, CR/LF/TAB, alone and inside a program; the same perturbations of literal strings given to parse_arg; each case runs check + compile of every pub fn + prettify in an isolated worker with a deadline and an address-space limit; distinct_nontrivial = number of distinct (outcome class, perturbation kind) pairs observed",
             "samples": [
                 {"kind": cases[1].kind, "origin": cases[1].origin, "text": String::from_utf8_lossy(&cases[1].text)},
                 {"kind": cases[n_frontend / 2].kind, "origin": cases[n_frontend / 2].origin, "text": String::from_utf8_lossy(&cases[n_frontend / 2].text)},
